@@ -61,3 +61,15 @@ def c08_only_stripped(failure):
 
 def kind_type_pairs(failure, pairs):
     return [failure.get('kind'), failure.get('type')] in pairs
+
+
+def c19_op_mentions(failure, names):
+    """the op that raised (observed.op) names one of the given attributes"""
+    op = (failure.get('observed') or {}).get('op') or []
+    return len(op) > 1 and op[1] in names
+
+
+def doc_has(failure, elements=(), attributes=()):
+    """C09 (a): the generated document contains one of the element names / attribute names"""
+    inp = failure['input']
+    return bool(set(inp.get('elements', [])) & set(elements)) or bool(set(inp.get('attributes', [])) & set(attributes))
